@@ -20,14 +20,21 @@ func GetBidMasterStore(ctx *action.Context) (*bid_data.BidMasterStore, error) {
 }
 
 func IsAssetAvailable(ctx *action.Context, assetName string, assetType bid_data.BidAssetType, assetOwner keys.Address) (bool, error) {
-	bidAssetTemplate := BidAssetMap[assetType]
+	// the asset type comes from the transaction: one that is not registered has no template
+	bidAssetTemplate, ok := BidAssetMap[assetType]
+	if !ok {
+		return false, bid_data.ErrInvalidAsset
+	}
 	bidAsset := bidAssetTemplate.NewAssetWithName(assetName)
 	assetOk, err := bidAsset.ValidateAsset(ctx, assetOwner)
 	return assetOk, err
 }
 
 func ExchangeAsset(ctx *action.Context, assetName string, assetType bid_data.BidAssetType, assetOwner keys.Address, bidder keys.Address) (bool, error) {
-	bidAssetTemplate := BidAssetMap[assetType]
+	bidAssetTemplate, ok := BidAssetMap[assetType]
+	if !ok {
+		return false, bid_data.ErrInvalidAsset
+	}
 	bidAsset := bidAssetTemplate.NewAssetWithName(assetName)
 	exchangeOk, err := bidAsset.ExchangeAsset(ctx, bidder, assetOwner)
 	return exchangeOk, err
